@@ -116,10 +116,49 @@ def table_obligations(f, rep, T):
     ws = writers_of(f, T.ty)
     own = {b['def'] for b in T.fns.values()} | {d for d, b in f.bodies.items() if b.get('derived')}
     own |= {d for d in ws if any(d.startswith(o + '::{closure') for o in own)}
+    # crate-private helpers of the table (an impl of a private trait for T, a provided method of such a trait): they are
+    # not entry points; they may write as long as everything that calls them is one of the table's own (analysed) methods
+    base_ty = norm_ty(T.ty).split('<')[0]
+    priv_traits = {b.get('trait') for d, b in f.bodies.items() if b.get('trait') and b.get('vis') != 'pub' and norm_ty(b.get('self_ty') or '').split('<')[0] == base_ty}
+    helpers = {d for d, b in f.bodies.items() if b.get('vis') != 'pub' and (
+        (b.get('trait') in priv_traits and norm_ty(b.get('self_ty') or '').split('<')[0] == base_ty) or (b.get('trait_default_of') in priv_traits))}
+    if helpers & ws:
+        cg = callers_of(f, helpers, base_ty)
+        leak = sorted(c for c in cg if c not in own and c not in helpers)
+        rep.ob('O-stable', T.ty + ':private helpers', not leak, 'crate-private helpers that write %s are called from outside its methods: %s' % (T.ty, leak), detail={'helpers': sorted(helpers), 'callers': sorted(cg)})
+        own |= helpers
     extra = sorted(ws - own)
     rep.ob('O-stable', T.ty, not extra, 'functions outside impl %s write its fields: %s' % (T.ty, extra), detail={'writers': sorted(ws)})
 
     return n_steps
+
+def callers_of(f, targets, self_ty=None):
+    """functions containing a call that may reach one of `targets` (resolved callee, or an unresolved call of the same
+    trait method)"""
+    tnames = {}
+    for d in targets:
+        b = f.bodies[d]
+        tr = b.get('trait') or b.get('trait_default_of')
+        if tr: tnames.setdefault((tr, b.get('name')), set()).add(d)
+    out = set()
+    for d, b in f.bodies.items():
+        if b.get('body') is None: continue
+        found = [False]
+        def walk(x):
+            if isinstance(x, dict):
+                if x.get('k') == 'Call':
+                    c = x.get('resolved') or x.get('callee')
+                    # a trait method called for a different concrete Self does not touch this table
+                    g0 = norm_ty((x.get('generics') or [''])[0]).split('<')[0] if x.get('trait') else ''
+                    other = bool(self_ty) and g0 and g0 != self_ty and f.adt(g0) is not None
+                    if c in targets and not other: found[0] = True
+                    if (x.get('trait'), x.get('callee_name')) in tnames and not other: found[0] = True
+                for v in x.values(): walk(v)
+            elif isinstance(x, list):
+                for v in x: walk(v)
+        walk(b['body'])
+        if found[0]: out.add(d)
+    return out
 
 def writers_of(f, ty):
     """functions containing an assignment to, or a &mut borrow of, a field of `ty`"""
@@ -234,17 +273,24 @@ def sdt(f, rep):
             t = total(I, sv)
             ok, w = equal(t, ZERO, [c for c, _ in I.st.facts])
             rep.ob('O-scratch', subj, ok, 'after Sdt::%s the image sums to %s (mod 256), not 0' % (name, show(t)), sp=b['sp'], detail={'sum': show(t), 'witness': w})
-    # the sink adapter funnels into append
-    I = new_interp(f)
-    sv = I.sym_value('sdt::Sdt', 'self')
-    I.st.ranges[seqlen(sv.fields['data'].segs)] = (36, (1 << 64) - 1)
-    # only `byte` is overridden; the multi-byte entry points are the trait defaults, which reach the table
-    # through `byte` alone (C14 sink-shape rule), so they preserve the invariant by induction on the byte calls
-    ov = f.trait_impls.get(('AmlSink', 'sdt::Sdt'), {})
-    rep.ob('O-scratch', 'sdt::Sdt as AmlSink overrides', set(ov) == {'byte'}, 'Sdt overrides sink methods %s; only byte is analysed' % sorted(ov), detail={'overrides': sorted(ov)})
-    for meth, arg in (('byte', A('b', 0, 255)),):
-        I.sink_call(meth, [RefV(Cell(sv), True), arg], {'sp': None})
-        t = total(I, sv)
-        ok = not I.tops and equal(t, ZERO)[0]
-        rep.ob('O-scratch', 'sdt::Sdt as AmlSink::' + meth, ok, 'after pushing through the sink interface the image sums to %s' % show(t), detail={'sum': show(t)})
+    # the sink adapter: every entry point the table overrides leaves an image that sums to zero (the ones it does not
+    # override are the trait defaults, which reach the table through `byte` alone - C14 - so they preserve the invariant
+    # by induction on the byte calls)
+    import sdtsink
+    cs = sdtsink.cases(f)
+    rep.ob('O-scratch', 'sdt::Sdt as AmlSink overrides', any(m == 'byte' for _, m, _ in cs), 'Sdt does not implement AmlSink::byte', detail={'overrides': [c[0] for c in cs]})
+    for label, meth, mk in cs:
+        I, sv, old, want = sdtsink.run_case(f, meth, mk)
+        rep.analysed.update(I.calls_seen)
+        if I.tops: rep.undecided('O-scratch', 'sdt::Sdt as AmlSink::' + label, I.tops, None); continue
+        sym.CTX = I.st.ranges
+        try:
+            t_ = total(I, sv)
+            ok = equal(t_, ZERO, [c for c, _ in I.st.facts])[0]
+            d_ = sv.fields['data']
+            if not ok and not d_.stores and d_.segs == I.sym_value('sdt::Sdt', 'self').fields['data'].segs:
+                ok = True      # nothing was delivered and the table is untouched: the invariant carries over
+        finally:
+            sym.CTX = {}
+        rep.ob('O-scratch', 'sdt::Sdt as AmlSink::' + label, ok, 'after pushing through the sink interface the image sums to %s' % show(t_), detail={'sum': show(t_)})
     rep.floor('Sdt operations', n, 14)
